@@ -345,8 +345,11 @@ def synth_elf(rng, x64, msb):
     nph = rng.randint(1, 4)
     nsh = rng.randint(0, 3)
     ehsize = 64 if x64 else 52
-    phent = 56 if x64 else 32
-    shent = 64 if x64 else 40
+    phbase = phent = 56 if x64 else 32
+    shbase = shent = 64 if x64 else 40
+    # the gABI lets e_phentsize / e_shentsize exceed the structure sizes (entries are then padded)
+    phent += rng.choice((0, 0, 0, 8))
+    shent += rng.choice((0, 0, 8, 16))
     phoff = ehsize + rng.choice((0, 8, 16))          # the gABI requires natural alignment of the tables
     body_off = phoff + nph * phent + rng.choice((0, 8))
     segs = []
@@ -373,6 +376,7 @@ def synth_elf(rng, x64, msb):
             img += struct.pack(E + "IIQQQQQQ", s["p_type"], s["p_flags"], s["p_offset"], s["p_vaddr"], s["p_paddr"], s["p_filesz"], s["p_memsz"], s["p_align"])
         else:
             img += struct.pack(E + "IIIIIIII", s["p_type"], s["p_offset"], s["p_vaddr"], s["p_paddr"], s["p_filesz"], s["p_memsz"], s["p_flags"], s["p_align"])
+        img += b"\xee" * (phent - phbase)
     img += b"\0" * (body_off - len(img))
     for s in segs:
         img += bytes(rng.getrandbits(8) for _ in range(s["p_filesz"]))
@@ -381,12 +385,13 @@ def synth_elf(rng, x64, msb):
         img += b"\0" * (shoff - len(img))
         for k in range(nsh):
             sh = dict(sh_name=0, sh_type=rng.choice((1, 8, 0)), sh_flags=2, sh_addr=segs[0]["p_vaddr"], sh_offset=segs[0]["p_offset"], sh_size=segs[0]["p_filesz"],
-                      sh_link=0, sh_info=0, sh_addralign=1, sh_entsize=0)
+                      sh_link=0, sh_info=k, sh_addralign=1 << k, sh_entsize=0)
             sects.append(sh)
             if x64:
                 img += struct.pack(E + "IIQQQQIIQQ", sh["sh_name"], sh["sh_type"], sh["sh_flags"], sh["sh_addr"], sh["sh_offset"], sh["sh_size"], sh["sh_link"], sh["sh_info"], sh["sh_addralign"], sh["sh_entsize"])
             else:
                 img += struct.pack(E + "IIIIIIIIII", sh["sh_name"], sh["sh_type"], sh["sh_flags"], sh["sh_addr"], sh["sh_offset"], sh["sh_size"], sh["sh_link"], sh["sh_info"], sh["sh_addralign"], sh["sh_entsize"])
+            img += b"\xee" * (shent - shbase)
     truth = dict(e_type=etype, e_machine=mach, e_entry=entry, e_phoff=phoff, e_shoff=shoff, e_phnum=nph, e_shnum=nsh, e_phentsize=phent, e_shentsize=shent,
                  segs=segs, sects=sects, x64=x64, msb=msb)
     return bytes(img), truth
@@ -712,6 +717,9 @@ def _pe_case(seed, base_img, intact=False):
             vs = raw
         elif choice == "noraw" and not s["name"].startswith(b".text"):
             nraw, vs = 0, min(room, max(vs, 0x123))
+            if rng.random() < 0.5:
+                # a pure .bss as MinGW emits it: no raw data and no raw pointer either
+                struct.pack_into("<I", img, s["at"] + 20, 0)
         struct.pack_into("<I", img, s["at"] + 8, vs)
         struct.pack_into("<I", img, s["at"] + 16, nraw)
         edits.append((s["name"].rstrip(b"\0").decode(), choice))
